@@ -45,16 +45,80 @@ theorem deField_typed (sd : Bool) (n : Nat) (e : Enc) : deField .typed sd n e = 
 theorem deField_vec (sd : Bool) (n : Nat) (e : Enc) : deField .vec sd n e = deVecFixed sd n e := rfl
 theorem deData_typed (sd : Bool) (e : Enc) : deData .typed sd e = deHeap e := rfl
 
-theorem deField_serField (k : Kind) (sd : Bool) (n : Nat) (bs : Bytes) (h : k = .typed → bs.length = n) :
+theorem deField_array (sd : Bool) (n : Nat) (e : Enc) : deField .array sd n e = deArray n e := rfl
+
+/-- closed form of serde's `[u8; n]` visitor: exactly the element sequences of length `n` -/
+theorem deArray_ok_iff (n : Nat) (e : Enc) (a : Bytes) :
+    deArray n e = .ok a ↔ e = .seq a ∧ a.length = n := by
+  cases e with
+  | seq es =>
+    simp only [deArray]
+    by_cases h : es.length = n
+    · simp only [if_pos h, Outcome.ok.injEq, Enc.seq.injEq]
+      constructor
+      · intro h1; subst h1; exact ⟨rfl, h⟩
+      · intro h1; exact h1.1
+    · simp only [if_neg h, Enc.seq.injEq]
+      constructor
+      · intro h1; cases h1
+      · intro h1; obtain ⟨h2, h3⟩ := h1; subst h2; exact absurd h3 h
+  | bytes bs => simp [deArray]
+
+theorem deArray_never_panics (n : Nat) (e : Enc) : deArray n e ≠ .panic := by
+  cases e with
+  | seq es => simp only [deArray]; split <;> simp
+  | bytes bs => simp [deArray]
+
+theorem deArray_ser (n : Nat) (bs : Bytes) (h : bs.length = n) : deArray n (serArray bs) = .ok bs := by
+  simp [deArray, serArray, h]
+
+theorem deField_serField (k : Kind) (sd : Bool) (n : Nat) (bs : Bytes) (h : k ≠ .vec → bs.length = n) :
     deField k sd n (serField k bs) = .ok bs := by
   cases k with
-  | typed => exact deFixed_ser n bs (h rfl)
+  | typed => exact deFixed_ser n bs (h (by decide))
   | vec => rfl
+  | array => exact deArray_ser n bs (h (by decide))
 
 theorem deData_serField (k : Kind) (sd : Bool) (bs : Bytes) : deData k sd (serField k bs) = .ok bs := by
   cases k with
   | typed => exact deHeap_ser bs
   | vec => rfl
+  | array => simp [deData, serField, serArray, deArray, Enc.payload]
+
+/-- the format-aware serialiser: what it is, by kind and format -/
+theorem serField'_eq (k : Kind) (sd : Bool) (bs : Bytes) :
+    serField' k sd bs = match k, sd with
+      | .typed, false => .bytes bs
+      | _, _ => .seq bs := by
+  cases k <;> cases sd <;> rfl
+
+/-- on bincode (`sd = false`) the format-aware serialiser IS the token-level one -/
+theorem serField'_bincode (k : Kind) (bs : Bytes) : serField' k false bs = serField k bs := by
+  cases k <;> rfl
+
+theorem deField_serField' (k : Kind) (sd : Bool) (n : Nat) (bs : Bytes) (h : k ≠ .vec → bs.length = n) :
+    deField k sd n (serField' k sd bs) = .ok bs := by
+  cases k with
+  | typed =>
+    have hl := h (by decide)
+    cases sd
+    · exact deFixed_ser n bs hl
+    · show deFixed n (.seq bs) = .ok bs
+      rw [deFixed_eq]; simp [Enc.payload, hl]
+  | vec => cases sd <;> rfl
+  | array =>
+    have hl := h (by decide)
+    cases sd <;> exact deArray_ser n bs hl
+
+theorem deData_serField' (k : Kind) (sd : Bool) (bs : Bytes) : deData k sd (serField' k sd bs) = .ok bs := by
+  cases k with
+  | typed =>
+    cases sd
+    · exact deHeap_ser bs
+    · show deHeap (.seq bs) = .ok bs
+      rw [deHeap_eq]; rfl
+  | vec => cases sd <;> rfl
+  | array => cases sd <;> simp [deData, serField', deArray, Enc.payload]
 
 /-! ### struct codecs by kind -/
 
@@ -66,8 +130,8 @@ theorem serSignedK_typed (sm : Bytes × Bytes) : serSignedK .typed .typed sm = s
 
 /-- **`de ∘ ser = id` on a box struct for every choice of container kinds**: the length hypotheses are needed only
 for the fields held in a typed container -/
-theorem deBoxK_serBoxK (kE kT kD : Kind) (sd : Bool) (b : Box) (ht : kT = .typed → b.tag.length = 16)
-    (he : kE = .typed → ∀ e, b.epk = some e → e.length = 32) :
+theorem deBoxK_serBoxK (kE kT kD : Kind) (sd : Bool) (b : Box) (ht : kT ≠ .vec → b.tag.length = 16)
+    (he : kE ≠ .vec → ∀ e, b.epk = some e → e.length = 32) :
     deBoxK kE kT kD sd (serBoxK kE kT kD b) = .ok b := by
   obtain ⟨epk, tag, data⟩ := b
   simp only at ht he
@@ -79,10 +143,30 @@ theorem deBoxK_serBoxK (kE kT kD : Kind) (sd : Bool) (b : Box) (ht : kT = .typed
       deField_serField kE sd 32 e (fun hk => he hk e rfl)]
 
 theorem deSignedK_serSignedK (kS kM : Kind) (sd : Bool) (sm : Bytes × Bytes)
-    (h : kS = .typed → sm.1.length = 64) : deSignedK kS kM sd (serSignedK kS kM sm) = .ok sm := by
+    (h : kS ≠ .vec → sm.1.length = 64) : deSignedK kS kM sd (serSignedK kS kM sm) = .ok sm := by
   obtain ⟨sig, m⟩ := sm
   simp only at h
   simp [deSignedK, serSignedK, Outcome.andThen, deField_serField kS sd 64 sig h, deData_serField]
+
+/-- **`de ∘ ser = id` through the format's rendering** (`serBoxK'`: a JSON array for every container on serde_json;
+a byte string for dryoc's containers and an element sequence for `Vec<u8>` / `[u8; N]` on bincode) -/
+theorem deBoxK_serBoxK' (kE kT kD : Kind) (sd : Bool) (b : Box) (ht : kT ≠ .vec → b.tag.length = 16)
+    (he : kE ≠ .vec → ∀ e, b.epk = some e → e.length = 32) :
+    deBoxK kE kT kD sd (serBoxK' kE kT kD sd b) = .ok b := by
+  obtain ⟨epk, tag, data⟩ := b
+  simp only at ht he
+  cases epk with
+  | none =>
+    simp [deBoxK, serBoxK', Outcome.andThen, deField_serField' kT sd 16 tag ht, deData_serField']
+  | some e =>
+    simp [deBoxK, serBoxK', Outcome.andThen, deField_serField' kT sd 16 tag ht, deData_serField',
+      deField_serField' kE sd 32 e (fun hk => he hk e rfl)]
+
+theorem deSignedK_serSignedK' (kS kM : Kind) (sd : Bool) (sm : Bytes × Bytes)
+    (h : kS ≠ .vec → sm.1.length = 64) : deSignedK kS kM sd (serSignedK' kS kM sd sm) = .ok sm := by
+  obtain ⟨sig, m⟩ := sm
+  simp only at h
+  simp [deSignedK, serSignedK', Outcome.andThen, deField_serField' kS sd 64 sig h, deData_serField']
 
 /-- a `Vec<u8>` tag field: EVERY element sequence decodes, to itself (here with `Vec<u8>` data and no key) -/
 theorem deBoxK_vecTag_seq (kE kD : Kind) (sd : Bool) (es : Bytes) (d : Enc) (data : Bytes)
@@ -135,15 +219,70 @@ theorem vecSig_short_decodes_then_verify_panics (H : Bytes → Bytes) (kM : Kind
 /-! ### pair structs -/
 
 theorem dePairK_serPairK (k₁ k₂ : Kind) (sd : Bool) (n m : Nat) (p : Bytes × Bytes)
-    (h1 : k₁ = .typed → p.1.length = n) (h2 : k₂ = .typed → p.2.length = m) :
+    (h1 : k₁ ≠ .vec → p.1.length = n) (h2 : k₂ ≠ .vec → p.2.length = m) :
     dePairK k₁ k₂ sd n m (serPairK k₁ k₂ p) = .ok p := by
   obtain ⟨a, b⟩ := p
   simp only at h1 h2
   simp [dePairK, serPairK, Outcome.andThen, deField_serField k₁ sd n a h1, deField_serField k₂ sd m b h2]
 
+theorem dePairK_serPairK' (k₁ k₂ : Kind) (sd : Bool) (n m : Nat) (p : Bytes × Bytes)
+    (h1 : k₁ ≠ .vec → p.1.length = n) (h2 : k₂ ≠ .vec → p.2.length = m) :
+    dePairK k₁ k₂ sd n m (serPairK' k₁ k₂ sd p) = .ok p := by
+  obtain ⟨a, b⟩ := p
+  simp only at h1 h2
+  simp [dePairK, serPairK', Outcome.andThen, deField_serField' k₁ sd n a h1, deField_serField' k₂ sd m b h2]
+
 theorem dePair_serPair (n m : Nat) (p : Bytes × Bytes) (h1 : p.1.length = n) (h2 : p.2.length = m) :
     dePair n m (serPair p) = .ok p :=
   dePairK_serPairK .typed .typed false n m p (fun _ => h1) (fun _ => h2)
+
+/-! ### `from_slices` -/
+
+theorem tryFromSlice_eq (n : Nat) (bs : Bytes) : tryFromSlice n bs = if bs.length = n then .ok bs else .err := by
+  unfold tryFromSlice
+  by_cases h : bs.length = n <;> simp [h]
+
+/-- closed form of `from_slices` for the strict conversions (`k ≠ .vec`: dryoc's containers and `[u8; N]`) -/
+theorem fromSlices_strict_eq (k₁ k₂ : Kind) (h₁ : k₁ ≠ .vec) (h₂ : k₂ ≠ .vec) (n m : Nat) (a b : Bytes) :
+    fromSlices k₁ k₂ n m a b = if a.length = n ∧ b.length = m then .ok (a, b) else .err := by
+  have t₁ : tryField k₁ n a = tryFromSlice n a := by cases k₁ <;> first | rfl | exact absurd rfl h₁
+  have t₂ : tryField k₂ m b = tryFromSlice m b := by cases k₂ <;> first | rfl | exact absurd rfl h₂
+  simp only [fromSlices, t₁, t₂, tryFromSlice_eq, Outcome.andThen]
+  by_cases ha : a.length = n <;> by_cases hb : b.length = m <;> simp [ha, hb]
+
+/-- **`KeyPair::from_slices` / `SigningKeyPair::from_slices` with typed containers**: `Ok` iff BOTH slices have
+exactly the lengths of their containers, and then the pair holds exactly the two slices -/
+theorem fromSlices_typed_ok_iff (n m : Nat) (a b : Bytes) (p : Bytes × Bytes) :
+    fromSlices .typed .typed n m a b = .ok p ↔ (a.length = n ∧ b.length = m) ∧ p = (a, b) := by
+  rw [fromSlices_strict_eq .typed .typed (by decide) (by decide)]
+  by_cases h : a.length = n ∧ b.length = m
+  · rw [if_pos h]
+    constructor
+    · intro h1; cases h1; exact ⟨h, rfl⟩
+    · intro h1; rw [h1.2]
+  · rw [if_neg h]
+    constructor
+    · intro h1; cases h1
+    · intro h1; exact absurd h1.1 h
+
+/-- failure half: an error iff one of the two lengths is wrong; never a panic -/
+theorem fromSlices_typed_err_iff (n m : Nat) (a b : Bytes) :
+    (fromSlices .typed .typed n m a b = .err ↔ ¬ (a.length = n ∧ b.length = m)) ∧
+    fromSlices .typed .typed n m a b ≠ .panic := by
+  rw [fromSlices_strict_eq .typed .typed (by decide) (by decide)]
+  by_cases h : a.length = n ∧ b.length = m
+  · rw [if_pos h]; simp [h]
+  · rw [if_neg h]; simp [h]
+
+/-- the public key is converted FIRST: a wrong public-key slice decides the outcome before the secret-key slice is
+looked at (with `Outcome.err` carrying no message this is the only trace of the order) -/
+theorem fromSlices_pk_first (k₂ : Kind) (n m : Nat) (a b : Bytes) (h : a.length ≠ n) :
+    fromSlices .typed k₂ n m a b = .err := by
+  simp [fromSlices, tryField, tryFromSlice, h, Outcome.andThen]
+
+/-- **with `Vec<u8>` containers nothing is checked**: `TryFrom<&[u8]> for Vec<u8>` is the blanket impl over the
+infallible `From<&[u8]>` — any two slices are accepted as a "key pair" -/
+theorem fromSlices_vec_not_strict (n m : Nat) (a b : Bytes) : fromSlices .vec .vec n m a b = .ok (a, b) := rfl
 
 /-- exact success condition of a typed pair on ARBITRARY field encodings -/
 theorem dePair_ok_iff (n m : Nat) (e : EncPair) (p : Bytes × Bytes) :
@@ -403,6 +542,12 @@ theorem deLockedArrOld_not_strict (n : Nat) (init es : Bytes) (hi : init.length 
 
 #print axioms deVecFixed_not_strict
 #print axioms deBoxK_serBoxK
+#print axioms deBoxK_serBoxK'
+#print axioms deSignedK_serSignedK'
+#print axioms dePairK_serPairK'
+#print axioms fromSlices_typed_ok_iff
+#print axioms fromSlices_typed_err_iff
+#print axioms deArray_ok_iff
 #print axioms toBytesRaw_eq
 #print axioms intoVecRaw_eq
 #print axioms signedToBytesRaw_eq
